@@ -26,6 +26,11 @@ def rnd_flow(rng, ipv):
                 sport=rng.choice([443, 44330]))
 
 
+# two-interface sections (Container.tla PerInterface); every variant keeps microsecond timestamps exact, so the 1 us rule is unaffected
+TWO_IF = [dict(tsresol=9, tsoffset=3600, second_if=[None, None]), dict(tsresol=6, tsoffset=86400, second_if=[None, None]),
+          dict(second_if=[9, 5]), dict(tsresol=9, second_if=[6, 7200]), dict(tsresol=None, tsoffset=17, second_if=[9, None])]
+
+
 def _one(sc):
     try:
         cap, conns, flows, res, obs, o = run_tls(sc, trace=True)
@@ -79,11 +84,15 @@ def run(chk):
         rng.shuffle(behs)
         for i, b in enumerate(behs[: 150 if quick else 2500]):
             sc = c05.scenario(b, st, c05.KINDS[i % len(c05.KINDS)], rng.randrange(1 << 30))
+            if sc is None:
+                continue
             sc["conns"][0]["flow"] = rnd_flow(rng, rng.choice([4, 6]))
             sc["ts0"], sc["step"] = rng.randrange(10 ** 15, 2 * 10 ** 15), rng.choice([1, 7, 999_983, 1_000_003, 123_457])
             if i % 3 == 0:
                 sc["container"] = dict(sub=True, tsresol=9)
                 sc["step"] = max(sc["step"], 7)     # with 1 us spacing a 1 us tolerance cannot tell neighbours apart
+            elif i % 3 == 1:
+                sc["container"] = rng.choice(TWO_IF)   # every second packet captured on a second interface with its own resolution / offset
             jobs.append(sc)
     # (b) records of n bytes carried by k packets
     r = tlc.run("TcpOut", dict(MaxLen="12", MaxK="5", MaxRec="4", EmitOn="TRUE"), invariants=["Emitter"],
@@ -98,6 +107,8 @@ def run(chk):
         if i % 3 == 0:
             sc["container"] = dict(sub=True, tsresol=9)
             sc["step"] = max(sc["step"], 7)
+        elif i % 3 == 1:
+            sc["container"] = rng.choice(TWO_IF)
         jobs.append(sc)
     results = pool_map(_one, jobs)
     traces, rtr = [], []
